@@ -65,9 +65,14 @@ def parse_mir(text):
             continue
         if (line.startswith('const ') or line.startswith('static ')) and line.endswith('= {'):
             # promoted constants / consts with a body: evaluated like a zero-argument function when referenced
-            m = re.match(r'(?:const|static(?: mut)?) (.*?): (.*) = \{$', line)
-            if m:
-                cur = Fn('const ' + m.group(1), [], m.group(2), ln + 1); fns.append(cur); bb = None      # own namespace: `const <path>`
+            body = re.sub(r'^(?:const|static(?: mut)?) ', '', line)[:-4]
+            d = 0; cut = None
+            for i, ch in enumerate(body):            # the name ends at the first `: ` outside <...> (impl spans contain `: `)
+                if ch == '<': d += 1
+                elif ch == '>' and body[i-1] != '-': d -= 1
+                elif ch == ':' and d == 0 and body[i:i+2] == ': ' and body[i-1] != ':' : cut = i; break
+            if cut is not None:
+                cur = Fn('const ' + body[:cut], [], body[cut+2:], ln + 1); fns.append(cur); bb = None      # own namespace: `const <path>`
                 continue
         if cur is None: continue
         if line == '}': cur = None; continue
@@ -327,8 +332,12 @@ class Engine:
     FUEL = 400_000
     def __init__(s, fns, enums, feas_timeout_ms=250):
         s.fns = fns; s.enums = dict(STD_ENUMS); s.enums.update(enums)
-        s.by_last = {}
-        for f in fns: s.by_last.setdefault(f.name.split('::')[-1], []).append(f)
+        s.by_last = {}; seen_sig = set()
+        for f in fns:
+            sig = (f.name, tuple(f.params))
+            if sig in seen_sig and not f.name.endswith('::fmt'): continue       # const fns are dumped twice (runtime MIR and CTFE MIR)
+            seen_sig.add(sig)
+            s.by_last.setdefault(f.name.split('::')[-1], []).append(f)
         s.by_name = {}
         for f in fns: s.by_name.setdefault(f.name, f)
         s.closures = {}
@@ -557,7 +566,13 @@ class Engine:
             for k in range(len(parts)):          # the use site prints the full module path (and generic arguments), the definition a shorter one
                 pf = s.by_name.get('const ' + '::'.join(parts[k:]))
                 if pf is not None and not pf.params and pf.blocks: return s.run_fn(pf, [])
-            if 'promoted[' in t: raise Missing('promoted constant ' + t)
+            if 'promoted[' in t and len(parts) >= 2:
+                # impl blocks print as `<impl at file:span>` in the definition but as the type path at the use site: match on `fn::promoted[i]`
+                tail = '::'.join(parts[-2:])
+                cands = [g for nm, g in s.by_name.items() if nm.startswith('const ') and nm.endswith('::' + tail) or nm == 'const ' + tail]
+                if len(cands) == 1 and not cands[0].params: return s.run_fn(cands[0], [])
+                # several functions of that name have promoteds: they are almost always formatting flags / string pieces — keep going only if all agree structurally
+                raise Missing('promoted constant ' + t)
         if re.fullmatch(r'[\w:<>, {}@.#\[\]&\'()\-=]+', t): return FnItem(t)
         raise Missing('const ' + t)
 
